@@ -317,6 +317,35 @@ def parse_targets(s):
     return out
 
 
+def _first_top_paren(t):
+    depth = 0
+    instr = False
+    i = 0
+    while i < len(t):
+        c = t[i]
+        if instr:
+            if c == '\\':
+                i += 1
+            elif c == '"':
+                instr = False
+        elif c == '"':
+            instr = True
+        elif c in '<[{':
+            depth += 1
+        elif c in ']}':
+            depth -= 1
+        elif c == '>' and not (i > 0 and t[i - 1] in '-='):
+            depth -= 1
+        elif c == '(':
+            if depth == 0:
+                return i
+            depth += 1
+        elif c == ')':
+            depth -= 1
+        i += 1
+    return -1
+
+
 def parse_terminator(line):
     s = line.strip()
     if s.endswith(';'):
@@ -356,22 +385,20 @@ def parse_terminator(line):
         return ('goto', int(m.group(1)))
     # call:  PLACE = func(args) -> [return: bbN, unwind ...]    (diverging: -> unwind continue)
     i = _find_top(s, ' = ')
-    arrow = s.rfind(' -> ')
+    arrow = max(s.rfind(' -> ['), s.rfind(' -> unwind'))
     if i >= 0 and arrow >= 0 and s[arrow - 1] == ')':
         dest = parse_place(s[:i])
         callpart = s[i + 3:arrow]
-        # find '(' matching last ')'
-        depth = 0
-        for j in range(len(callpart) - 1, -1, -1):
-            if callpart[j] == ')':
-                depth += 1
-            elif callpart[j] == '(':
-                depth -= 1
-                if depth == 0:
-                    break
+        j = _first_top_paren(callpart)
+        if j < 0:
+            return ('unsupported', s)
+        e = match_paren(callpart, j)
         func = callpart[:j].strip()
-        inner = callpart[j + 1:-1].strip()
-        args = [parse_operand(x) for x in split_top(inner)] if inner else []
+        inner = callpart[j + 1:e].strip()
+        try:
+            args = [parse_operand(x) for x in split_top(inner)] if inner else []
+        except MirError:
+            return ('unsupported', s)
         tgs = s[arrow + 4:].strip()
         ret = None
         if tgs.startswith('['):
